@@ -89,9 +89,25 @@ pub fn run(tape: &mut Tape, props: Props, thorough: bool, trace_on: bool) -> Out
     let v6 = tape.draw(2) == 1;
     let l2 = if medium == Medium::Ethernet { 14 } else { 0 };
     let ip_mtu = if v6 { *tape.pick(&[1500usize, 1280, 1400]) } else { *tape.pick(&[1500usize, 576, 296, 1006]) };
+    // IPv4 header checksum capability of the two devices (0 Both, 1 Tx only, 2 Rx only, 3 None). A node that leaves
+    // the transmit checksum to its device emits the field as zero; its peer must then not verify it
+    let mut c4 = [0u8; 2];
+    if !v6 && tape.draw(3) == 0 {
+        c4 = [tape.draw(4) as u8, tape.draw(4) as u8];
+        for i in 0..2 {
+            if c4[i] >= 2 {
+                c4[1 - i] = match c4[1 - i] {
+                    0 => 1,
+                    2 => 3,
+                    x => x,
+                };
+            }
+        }
+    }
     let mut sides = vec![];
     for i in 0..2u8 {
         let mut cfg = NodeCfg::basic(if i == 0 { 'A' } else { 'B' }, medium, ip_mtu + l2, i + 1, v6);
+        cfg.csum[0] = c4[i as usize];
         cfg.seed = 21 + tape.draw(1 << 16) + i as u64;
         let mut node = build_node(&cfg);
         let view = {
@@ -112,7 +128,7 @@ pub fn run(tape: &mut Tape, props: Props, thorough: bool, trace_on: bool) -> Out
         sides.push(Side { node, view, addr: cfg.addrs[0].0, socks, wire: vec![], frag: None });
     }
     let lossy = tape.draw(3) == 2;
-    let desc = format!("raw-pair medium={:?} v6={} ip_mtu={} lossy={}", medium, v6, ip_mtu, lossy);
+    let desc = format!("raw-pair medium={:?} v6={} ip_mtu={} lossy={} ipv4-checksum-caps={:?}", medium, v6, ip_mtu, lossy, c4);
     let b = sides.pop().unwrap();
     let a = sides.pop().unwrap();
     let mut c = C { tape, props, s: [a, b], medium, v6, ip_mtu, now: 0, stats: Stats::default(), hash: LogHash::new(), trace: vec![], trace_on, events: 0, link: vec![], seq: 0, lossy, faults_on: lossy };
@@ -312,7 +328,9 @@ fn drain(c: &mut C, i: usize) -> Result<(), Violation> {
                 return Err(v("C09.raw/rx-peek-differs-from-recv", "rx", format!("node {}: peek showed a {}-octet packet, recv returned a different one ({} octets)", name, head.len(), data.len())));
             }
             // what the application got is an IP packet: decode it independently
-            let dec = decode_ip(&data, &Verify { ipv4: true, ..Verify::none() }, true);
+            // (the header the application sees is re-emitted by the receiving stack: its checksum field is filled in
+            // unless the sender's or the receiver's device is meant to take care of IPv4 header checksums)
+            let dec = decode_ip(&data, &Verify { ipv4: c.s[1 - i].view.tx_verify.ipv4 && c.s[i].view.tx_verify.ipv4, ..Verify::none() }, true);
             let Ok(pk) = dec else {
                 if on {
                     return Err(v("C09.raw/rx-not-a-valid-ip-packet", "rx", format!("node {} delivered {} octets to a raw socket that do not decode as a valid IP packet: {:?}", name, data.len(), dec.err().map(|e| e.msg))));
